@@ -6,6 +6,9 @@
 2. code -> spec: the REAL Controller / ComponentState run every case under seeded schedules (harness/ctl.py);
    every run is recorded at its linearisation points and validated against the specification with TLC
    (SchedulerTrace.tla), LaunchSafe being evaluated on the LOGGED REAL STATES.
+Since the growth item G02 the model has the environment action ExternalKill (killController() at any time during a stage):
+a second TLC run checks LaunchSafe and NoLaunchAfterStop with it switched on, and one schedule in five of the real runs
+kills the controller at a random turn (the launch properties are evaluated on those traces too).
 """
 import json
 import os
@@ -19,6 +22,7 @@ PID = "C01"
 INVS = ["TypeOK", "DoneImpliesFinal", "RunOnlyStaged", "RestartBound", "ExactlyOneFinal"]
 PROPS = ["LaunchSafe", "FinalAbsorbing", "DoneGrows", "NoRunAfterFinal"]
 ACTIONS = ["Pass", "TaskExit", "KilledExit", "SetFinal", "NotifyProducers", "PostMortemCheck", "FinishedCheck", "StageEnd", "Cleanup"]
+KILL_EVERY = 5      # one real schedule in KILL_EVERY has the environment call killController() at a random turn
 FIXOBS = True      # the specification models _input_dependencies_satisfied as repaired (see known_findings.json)
 
 
@@ -35,6 +39,10 @@ def key_for_trace(h, res):
     return "trace:step-not-allowed-by-spec:%s" % ev
 
 
+def kill_env(ci, k):
+    return dict(kill_p=0.15) if (k + ci) % KILL_EVERY == KILL_EVERY - 1 else None
+
+
 def run(tier, pid=PID):
     chk = Check(pid, tier)
     thorough = tier == "thorough"
@@ -48,16 +56,23 @@ def run(tier, pid=PID):
         if not r["coverage"].get(a):
             raise MachineryError("action %s never taken (vacuous model run): %s" % (a, r["coverage"]))
     chk.add_tlc(r)
+    # 1b. the same with the environment allowed to kill the controller at any time (two scan orders per shape)
+    r = SC.model_check("c01kill" + tier, shapes, PROPS + ["NoLaunchAfterStop"], INVS + ["KillReachesAll"], fixobs=FIXOBS, kill=True, all_orders=False)
+    if r["violated"]:
+        raise MachineryError("Scheduler.tla with ExternalKill violates %s:\n%s" % (r["violated"], r["out"][-3000:]))
+    for a in ACTIONS + ["ExternalKill"]:
+        if not r["coverage"].get(a):
+            raise MachineryError("action %s never taken in the model with ExternalKill: %s" % (a, r["coverage"]))
+    chk.add_tlc(r)
     # 2. real runs, trace validation
     cases = SC.all_cases(shapes, None if thorough else 14, rnd)
     nsched = 14 if thorough else 4
-    runs = SC.run_real(cases, nsched, chk.scratch, chk.seed, per_shape_budget=120 if thorough else 40)
+    runs = SC.run_real(cases, nsched, chk.scratch, chk.seed, per_shape_budget=120 if thorough else 40, env_for=kill_env)
     for h in runs:
         chk.evaluated((h.shape_name, tuple(h.oa), h.sched))
         if h.threads:
             raise MachineryError("harness leaked threads: %s" % h.threads)
-    results, tl = SC.validate_traces("c01" + tier, shapes, runs, fixobs=FIXOBS,
-                                     props=("TLaunchSafe", "TFinalAbsorbing", "TNoRunAfterFinal"))
+    results, tl = SC.validate_traces("c01" + tier, shapes, runs, fixobs=FIXOBS, props=("TLaunchSafe",) + SC.TRACE_PROPS)
     for t in tl:
         chk.add_tlc(t)
     for h, res in zip(runs, results):
@@ -70,6 +85,7 @@ def run(tier, pid=PID):
                       dict(shape=h.shape_name, oa=h.oa, sched=h.sched))
     launches = sum(1 for h in runs for e in h.trace for c in e["calls"] if c[0] == "Run")
     chk.cov["launches_observed"] = launches
+    chk.cov["real_runs_with_external_kill"] = sum(1 for h in runs if h.killed)
     h = runs[0]
     chk.sample(dict(shape=h.shape_name, outcomes=h.oa, schedule=h.sched, events=[[e["ev"], e["arg"]] for e in h.trace][:40]))
     chk.cov["rule"] = ("case = (workflow shape after replication, exit-reason sequence per component, seeded schedule of the harness); "
@@ -86,10 +102,9 @@ def replay(path):
     from .. import ctl
     d = json.load(open(path))["replay"]
     chk = Check(PID, "quick")
-    seed_, bm, eb, cw = d["sched"]
-    h = ctl.run_case(d["shape"], d["oa"], chk.scratch, ctl.RandomPolicy(seed_, burst_max=abs(bm), env_bias=eb, ctrl_weight=cw, eager_internal=bm < 0))
+    h = ctl.run_case(d["shape"], d["oa"], chk.scratch, SC.make_policy(tuple(d["sched"])))
     h.sid = 1
-    results, tl = SC.validate_traces("c01replay", [d["shape"]], [h], fixobs=FIXOBS, props=("TLaunchSafe", "TFinalAbsorbing", "TNoRunAfterFinal"))
+    results, tl = SC.validate_traces("c01replay", [d["shape"]], [h], fixobs=FIXOBS, props=("TLaunchSafe",) + SC.TRACE_PROPS)
     for e in h.trace:
         print(e["ev"], e["arg"], e["calls"], {k: v["cs"] for k, v in e["st"]["comps"].items()})
     if results[0]:
